@@ -251,7 +251,7 @@ def _nl(s):
     return "\n" * s.count("\n")
 
 
-def x1_strip(text, log):
+def x1_strip(text, log, keep_default=False):
     """doc comments, #[allow], derive filtering"""
     def doc(m):
         log.add("X1:doc")
@@ -263,11 +263,12 @@ def x1_strip(text, log):
         log.add("X1:allow")
         return _nl(m.group(0))
     text = re.sub(r"#\[allow\([^\]]*\)\]", allow, text)
-    text = re.sub(r"#\[default\]", lambda m: (log.add("X1:default-attr"), "")[1], text)
+    if not keep_default:
+        text = re.sub(r"#\[default\]", lambda m: (log.add("X1:default-attr"), "")[1], text)
 
     def derive(m):
         names = [x.strip() for x in m.group(1).split(",") if x.strip()]
-        keep = [x for x in names if x in KEEP_DERIVES and x != "Default"]
+        keep = [x for x in names if x in KEEP_DERIVES and (x != "Default" or keep_default)]
         dropped = [x for x in names if x not in keep]
         if dropped:
             log.add("X1:derive-drop(" + ",".join(dropped) + ")")
@@ -396,7 +397,18 @@ def x6_for_ghost_iter(text, log):
     return re.sub(r"(^|\n)(\s*)for ([a-z_][a-z0-9_]*) in ([a-z_][a-z0-9_.()]*) (?=\{)", lambda m: "%s%sfor %s in it: %s " % (m.group(1), m.group(2), m.group(3), m.group(4)) if not log.add("X9:for-ghost-iterator-name") else "", text)
 
 
+def x5b_ref_enum_pattern(text, log):
+    """match arm `Some(&Enum::Variant(x)) =>`  ->  `Some(Enum::Variant(x)) =>`
+    (default binding modes bind x by reference instead of by copy; only used where
+    the payload is Copy and is used through auto-deref)"""
+    def f(m):
+        log.add("X5:Some(&Enum::Variant(x))")
+        return "Some(" + m.group(1)
+    return re.sub(r"Some\(&([A-Z][A-Za-z0-9_]*::[A-Z][A-Za-z0-9_]*\()", f, text)
+
+
 OPTS = {
+    "x5b": x5b_ref_enum_pattern,
     "forit": x6_for_ghost_iter,
     "x3": x3_generic_io,
     "x4": x4_formatter,
@@ -583,7 +595,7 @@ class Extractor:
 
     def apply_rewrites(self, text, opts, ident):
         log = self.log.setdefault(ident, set())
-        text = x1_strip(text, log)
+        text = x1_strip(text, log, "keepdefault" in opts)
         text = x2_error_macros(text, log)
         text = x8_debug_asserts(text, log, "drop" if "x8drop" in opts else "assert")
         for o in opts:
@@ -593,7 +605,7 @@ class Extractor:
                 pass
             elif o in OPTS:
                 text = OPTS[o](text, log)
-            elif o not in ("x8drop", "x4impl"):
+            elif o not in ("x8drop", "x4impl", "keepdefault"):
                 raise SystemExit("unknown opt " + o)
         return text
 
